@@ -1337,22 +1337,39 @@ def _bufreader_new(I, a, d):
 def utf8_check(I, line):
     """Is this SBytes valid UTF-8?  bool (forks on symbolic bytes through the solver)."""
     segs = line.segs
-    if any(isinstance(s, sb.CutSeg) for s in segs):
-        # concrete text with one symbolic cut: validity is a condition on the cut point
-        pre = b""
+
+    def is_text_atom(x):
+        # text atoms (decimal / hex / base64 digits, opaque JSON text) and cuts of them are ASCII-safe boundaries
+        return isinstance(x, sb.Atom) or (isinstance(x, sb.Junk) and isinstance(x.id, tuple) and x.id and x.id[0] == "atomcut")
+    if any(isinstance(s, sb.CutSeg) or is_text_atom(s) for s in segs) and all(isinstance(s, (bytes, sb.CutSeg)) or is_text_atom(s) for s in segs):
+        # validity decomposes over the runs between text atoms; a run is concrete bytes optionally ending in a symbolic cut
+        run = b""
         for i, s_ in enumerate(segs):
             if isinstance(s_, bytes):
-                pre += s_
-            elif isinstance(s_, sb.CutSeg) and i == len(segs) - 1:
-                def valid(b, pre=pre):
+                run += s_
+            elif isinstance(s_, sb.CutSeg):
+                def valid(b, pre=run):
                     try:
                         (pre + b).decode("utf-8")
                         return True
                     except UnicodeDecodeError:
                         return False
-                return I.w.branch(sb.cut_cond(s_, valid), "utf8-cut")
+                if not I.w.branch(sb.cut_cond(s_, valid), "utf8-cut"):
+                    return False
+                run = b""
+                if i != len(segs) - 1 and not is_text_atom(segs[i + 1]):
+                    raise Inconclusive("utf8 validity after a cut")
             else:
-                raise Inconclusive("utf8 validity of %r" % (s_,))
+                try:
+                    run.decode("utf-8")
+                except UnicodeDecodeError:
+                    return False
+                run = b""
+        try:
+            run.decode("utf-8")
+            return True
+        except UnicodeDecodeError:
+            return False
     if all(isinstance(s, (bytes, sb.Atom)) for s in segs):
         # atoms are valid UTF-8 text by axiom; concrete runs between them must be valid on their own
         buf = b""
